@@ -109,10 +109,13 @@ type Env struct {
 	Workers  int
 	TimeoutS int // per obligation
 	Verbose  bool
+	// Claimed tells whether an obligation name is claimed by the property being checked; unclaimed
+	// obligations are only attempted briefly (they never affect the verdict unless a replay confirms).
+	Claimed func(name string) bool
 }
 
 func EnvFromOS(prop string) *Env {
-	e := &Env{Repo: "/repo", Verif: "/verif", Tier: "quick", Workers: 8, TimeoutS: 10}
+	e := &Env{Repo: "/repo", Verif: "/verif", Tier: "quick", Workers: 8, TimeoutS: 20}
 	if v := os.Getenv("VERIF_REPO"); v != "" {
 		e.Repo = v
 	}
@@ -146,6 +149,6 @@ func (e *Env) SetTier(t string) {
 	if t == "thorough" {
 		e.TimeoutS = 60
 	} else {
-		e.TimeoutS = 10
+		e.TimeoutS = 20
 	}
 }
